@@ -949,7 +949,24 @@ Example ex_closed_hyps : exists toks st',
 Proof. vm_compute. eexists; eexists. repeat split; try reflexivity; [auto|lia]. Qed.
 Example ex_accepted_hyps :
   Forall (fun t => In t (vocab ex_cfg2)) [TSta; TVal 12; TNote (Some 1) 61 None (Some 80); TRest 24; TBar; TTsg 6 8; TSto].
-Proof. repeat constructor; apply vocab_iff; vm_compute; auto 10. Qed.
+Proof. repeat (apply Forall_cons; [apply vocab_iff; vm_compute; auto 10|]). apply Forall_nil. Qed.
 Example ex_encode : encode ex_cfg2 [TSta; TVal 12; TNote (Some 1) 61 None (Some 80); TRest 24; TBar; TTsg 6 8; TSto]
   = Ok [1; 16; 38; 11; 3; 49; 2].
 Proof. vm_compute. reflexivity. Qed.
+
+(* ------------------------------------------------------------------ corollaries for tokenise output *)
+Theorem C02_encode_tokenise : forall c st tracks toks st',
+  tokenise c st tracks = Ok (toks, st') -> valid_cfg c = true -> DEFAULT_TS_NUM = DEFAULT_TS_DEN ->
+  exists ids, encode c toks = Ok ids /\ decode c ids = Ok toks /\ Forall (fun i => 0 <= i < dictionary_size c) ids.
+Proof.
+  intros c st tracks toks st' H Hv Hts. apply C02_encode_decode_list; [exact Hv|].
+  exact (C02_closed c st tracks toks st' H Hv Hts).
+Qed.
+
+Theorem C02_detokenise_tokenise : forall c st tracks toks st',
+  tokenise c st tracks = Ok (toks, st') -> valid_cfg c = true -> DEFAULT_TS_NUM = DEFAULT_TS_DEN ->
+  exists r, detokenise c toks = Ok r /\ lenZ r = c_ntracks c.
+Proof.
+  intros c st tracks toks st' H Hv Hts. apply C02_accepted; [|exact Hv].
+  exact (C02_closed c st tracks toks st' H Hv Hts).
+Qed.
